@@ -258,4 +258,35 @@ example : ((run demoCfg (init demoCfg [.tcp]) backoffOps).lst 0).registered = fa
 example : (run demoCfg (init demoCfg [.tcp]) (backoffOps ++ [.env (.advance 600), .poll [.waker] [], .poll [.listener 0, .waker] []])).dispatched.length = 1 := by
   decide
 
+-- hypotheses of the per-function theorems are met by reachable states
+def i0 : St := init demoCfg [.tcp, .uds]
+-- `conn_error_transparent`: an injected ECONNABORTED at the head, a worker available
+def sAbort : St := run demoCfg i0 [.env (.inject 1 (.kind .ConnectionAborted)), .env (.connect 1)]
+example : sAbort.fault = none ∧ anyAvail demoCfg sAbort = true ∧ Src.connectionError .ConnectionAborted = true ∧
+    ((yieldPt demoCfg sAbort).lst 1).inject = [.kind .ConnectionAborted] := by decide
+-- `other_error_backs_off`: EMFILE at the head
+def sEmfile : St := run demoCfg i0 [.env (.inject 0 .emfile), .env (.connect 0)]
+example : sEmfile.fault = none ∧ anyAvail demoCfg sEmfile = true ∧
+    ((yieldPt demoCfg sEmfile).lst 0).inject = [.emfile] := by decide
+-- `backoff_expiry_rearms` / `backoff_pending_stays_armed`: a listener in back-off, before and after its deadline
+def sBack : St := run demoCfg i0 [.env (.inject 0 .emfile), .env (.connect 0), .poll [.listener 0, .waker] []]
+example : (sBack.lst 0).deadline = some 500 ∧ sBack.now < 500 := by decide
+def sLater : St := run demoCfg sBack [.env (.advance 600)]
+example : (sLater.lst 0).deadline = some 500 ∧ ¬ sLater.now < 500 ∧ sLater.paused = false ∧
+    (sLater.lst 0).registered = false := by decide
+-- `resume_runs_accept_loop` / `pause_idempotent` / `paused_wakeup_does_not_accept`: paused, with the command queued
+def sPaused : St := run demoCfg i0 [.env (.cmd .pause), .poll [.waker] []]
+example : (run demoCfg sPaused [.env (.cmd .resume)]).fault = none ∧
+    (yieldPt demoCfg (run demoCfg sPaused [.env (.cmd .resume)])).wq = [.resume] ∧
+    (yieldPt demoCfg (run demoCfg sPaused [.env (.cmd .resume)])).paused = true := by decide
+example : (yieldPt demoCfg (run demoCfg sPaused [.env (.cmd .pause)])).wq = [.pause] ∧
+    (yieldPt demoCfg (run demoCfg sPaused [.env (.cmd .pause)])).paused = true := by decide
+-- `unmatched_resume_noop`: a resume while running
+example : (yieldPt demoCfg (run demoCfg i0 [.env (.cmd .resume)])).wq = [.resume] ∧
+    (yieldPt demoCfg (run demoCfg i0 [.env (.cmd .resume)])).paused = false := by decide
+-- `paused_no_dispatch`: paused, no resume queued
+example : sPaused.paused = true ∧ (∀ i ∈ sPaused.wq, i ≠ Interest.resume) := by decide
+-- `running_listener_is_registered`: running, no deadline
+example : i0.exited = false ∧ i0.paused = false ∧ (i0.lst 1).deadline = none ∧ 1 < i0.nLst := by decide
+
 end ActixNet.C05
